@@ -102,6 +102,39 @@ CHECKS['C16'] = dict(
     note='One independent reader (Gurobi) is all this sandbox has; ill-scaled regions decided Gurobi vs Gurobi. Exp-cone programs have no file oracle.',
     design='DESIGN.md 4/C16')
 
+CHECKS['C09'] = dict(
+    technique='explicit-state search over real API call histories (all words up to a depth, BFS of an abstract state graph to fixpoint, all linear extensions, aliasing matrix); differential oracle against a fresh canonical build',
+    text='Five history explorations on the real rsome: (leak) ordered pairs/triples of set definitions over 17 set kinds (each landing in a different list of the shared set '
+         'model) with decoys, for ro forall/minmax/maxmin and dro suppset/exptset/probset/forall; (seq) every word of length 4 (5) over declaration/formulate/solve/soc_solve/get '
+         'alphabets for ro and dro with every checkpoint compared to a fresh build; (graph) BFS to fixpoint over (declared set, cache flags, reformulation count, soc flag) with honest '
+         'replays; (order) all linear extensions of 7 declarations plus noise events; (alias) one expression object in ordered pairs of constructs vs fresh copies. An exception on one '
+         'side only is a disagreement.',
+    note='Graph pass relies on the stated abstraction key (guarded by the abstraction-free seq pass and replays). d=2, 2 scenarios, ECOS/HiGHS checkpoints. Open defects listed narrowly in known_findings.d/C09.json.',
+    design='DESIGN.md 4/C09')
+CHECKS['C15'] = dict(
+    technique='exhaustive enumeration of (base model, subset of the rewrite group, variants) on the real rsome; differential optimum equality with the base build',
+    text='7 base models (LP, SOCP, four RO models with LDR, a 2-scenario DRO model) x solver x every subset of size <=2 (3 thorough) of the nine rewrites of the statement in all '
+         'variants (min/-max-, declaration order, a<=b forms, equality vs two inequalities, Bounds vs rows vs inf-norm, array vs loops, rescaling, list vs args vs generator, ro vs 1-scenario dro), '
+         'applied by one builder wherever the spec offers the opportunity; optimum must equal the un-rewritten build.',
+    note='Compares optimal values only; 4 palettes so that every row/bound binds somewhere.',
+    design='DESIGN.md 4/C15')
+CHECKS['C12'] = dict(
+    technique='exhaustive enumeration of pinned-optimum models x every query class x partitions/adapt histories/labels/masks on the real rsome; NumPy closed forms at the raw solver vector',
+    text='Models whose optimum is unique and known (every entry pinned to a distinct dyadic value, per event in dro through indicator random variables) are solved and EVERY query is exercised: '
+         'model.get() in both senses, x.get(), x(), slices, 31 affine expression forms, 26 atoms x inner arguments x 14 offset chains x multipliers, 17 bi-affine forms x 8 assign patterns, ro rule '
+         'coefficient queries under every mask, dro queries under every adapt history of S<=3 (4) with int/str/permuted labels, affinely adaptive event-wise decisions. Values, shapes, NaN patterns and '
+         'Series label-to-scenario mapping are compared with NumPy at the raw solution vector.',
+    note='Default LP solver only; queries that raise are "unsupported" (statement is about returned numbers).',
+    design='DESIGN.md 4/C12')
+CHECKS['C13'] = dict(
+    technique='exhaustive enumeration of adapt() call sequences, dependency-mask declaration sequences and partition pairs on the real rsome; reference partition calculus, column-sharing inspection and closed-form optima',
+    text='Every sequence of adapt(block) calls (all ordered prefixes of all set partitions, S<=3 (4), 3 label kinds, 6 block forms) and every illegal continuation; every ordered sequence of disjoint '
+         'rectangle mask declarations (ro rules and dro decisions) and every overlapping one; every pair of partitions under 16 combiners; late declarations after use; integer decisions; adaptive x random '
+         'products. Oracle: event_adapt equals the declared partition / coarsest common refinement as a set of blocks, scenarios share rule columns iff in one block, discriminating closed-form optima (all 15 '
+         'partitions of 4 scenarios give distinct values), off-mask NaN and invariance, illegal declarations raise.',
+    note='Masks <= 2x3, sequences <= 3 (4).',
+    design='DESIGN.md 4/C13')
+
 NOT_YET = {}
 
 
